@@ -43,6 +43,19 @@ pub fn int_pool() -> Vec<i64> {
         i64::MAX - 1,
         i64::MAX,
     ];
+    // the same 64-bit ranges counted in other units: time values are i64 milli- / micro- / nanoseconds inside, so
+    // "seconds" arguments meet their limits at i64::MAX / 10^3, 10^6, 10^9, and sub-second parts at 10^9 - 1
+    for unit in [1_000i64, 1_000_000, 1_000_000_000] {
+        for base in [i64::MAX / unit, i64::MIN / unit] {
+            for d in [-1i64, 0, 1] {
+                v.push(base + d);
+            }
+        }
+    }
+    v.extend([
+        999_999_999, 1_000_000_000, 807_000_000, 807_000_001, -807_000_001, -999_999_999, 86_399, 86_400,
+        253_402_300_799, 253_402_300_800, -62_135_596_800, -62_135_596_801, 8_210_266_876_799, 8_210_266_876_800,
+    ]);
     v.sort();
     v.dedup();
     v
